@@ -6,6 +6,20 @@ from ..core import rule
 from ..model import walk_shallow, AnalysisError, UNKNOWN
 from .. import util, pq
 from ..pq import S, rel_norm, truth_norm
+
+def rel_norm_b(t, pol):
+    """rel_norm, with a bit of a key path tested through an index brought to the slice form the tables use:
+    `keypath[i] == 1` (indexing bytes gives an int) is `keypath[i:i + 1] == b"\\x01"`."""
+    r = rel_norm(t, pol)
+    if r is not None and r[0] in ("==", "!=") and r[1][0] == "sub" and r[2][0] == "c" and type(r[2][1]) is int and r[2][1] in (0, 1) \
+            and not (r[1][1][0] == "p" and False):
+        x, i = r[1][1], r[1][2]
+        if x[0] in ("p", "slice") and not (i[0] == "c" and isinstance(i[1], int) and i[1] < 0):
+            hi = ("c", i[1] + 1) if i[0] == "c" and isinstance(i[1], int) else ("bin", "+", i, ("c", 1))
+            lo = None if i == ("c", 0) else i
+            return (r[0], ("slice", x, lo, hi), ("c", bytes([r[2][1]])))
+    return r
+
 from ..sym import C, tstr, is_c
 from ..util import fkey
 
@@ -184,7 +198,7 @@ def _walker_rows(ctx, f, hp, kp):
         # case
         if st.facts.eq.get(hterm) == K["BLANK_HASH"]:
             case = "BLANK"
-        elif any(rel_norm(t, pol) == ("notin", hterm, ("p", "db")) or (t == ("cmp", "in", hterm, ("p", "db")) and pol is False) for t, pol, _ in st.log):
+        elif any(rel_norm_b(t, pol) == ("notin", hterm, ("p", "db")) or (t == ("cmp", "in", hterm, ("p", "db")) and pol is False) for t, pol, _ in st.log):
             case = "ABSENT"
         elif not parses:
             case = "PRE"
@@ -205,7 +219,7 @@ def _walker_rows(ctx, f, hp, kp):
                     case += ":?"
                 # prefix relations
                 for t, pol, _ in st.log:
-                    r = rel_norm(t, pol)
+                    r = rel_norm_b(t, pol)
                     if r is None:
                         continue
                     op, a, b = r
@@ -498,7 +512,7 @@ def ts6(ctx, pid):
         checked = False
         nonempty = False
         for t, pol, node in st.log + st.alog:
-            r = rel_norm(t, pol)
+            r = rel_norm_b(t, pol)
             if r and r[0] == "==" and any(x[0] == "call" and x[1] == BIN + ".get" for x in (r[1], r[2])):
                 other = r[2] if r[1][0] == "call" and r[1][1] == BIN + ".get" else r[1]
                 getc = r[1] if other is r[2] else r[2]
@@ -527,7 +541,7 @@ def ts6(ctx, pid):
         if last is None:
             continue
         tt, pp = truth_norm(last[0], last[1])
-        r = rel_norm(last[0], last[1])
+        r = rel_norm_b(last[0], last[1])
         known = (tt == ("p", "branch") and pp is False) or (r is not None and r[0] == "!=" and any(
             x[0] == "call" and x[1] == BIN + ".get" for x in (r[1], r[2])))
         if not known:
@@ -812,7 +826,7 @@ def abs4b(ctx, pid):
         c1 = ("bin", "+", cterm, C(1)) if cterm else None
         sel_pol = None
         for t, pol, node in st.log:
-            r = rel_norm(t, pol)
+            r = rel_norm_b(t, pol)
             if r and r[0] in ("==", "!=") and r[2] in (B0, B1) and r[1][0] == "slice" and r[1][1] == K and cterm is not None:
                 seen["selector"] += 1
                 n_checked += 1
@@ -851,7 +865,7 @@ def abs4b(ctx, pid):
                 n_checked += 1
                 if len(args) < 2 or args[0] != R or args[1] != ("slice", K, ("len", P), None):
                     problems.append((ev.node, "recursion passes (%s), expected (right_child, keypath[len(left_child):])" % ", ".join(tstr(x)[:30] for x in args[:2])))
-                if not any(rel_norm(t, pol) in (("==", ("slice", K, None, ("len", P)), P), ("==", P, ("slice", K, None, ("len", P)))) for t, pol, _ in st.log):
+                if not any(rel_norm_b(t, pol) in (("==", ("slice", K, None, ("len", P)), P), ("==", P, ("slice", K, None, ("len", P)))) for t, pol, _ in st.log):
                     problems.append((ev.node, "recursion into the child without keypath[:len(left_child)] == left_child"))
             elif tg.func.qual == ENC_BR and len(args) == 2 and sel_pol is not None:
                 seen["order"] += 1
@@ -880,7 +894,7 @@ def abs4b(ctx, pid):
     for p, st in pq.states(ctx, g):
         bit0 = None
         for t, pol, node in st.log:
-            r = rel_norm(t, pol)
+            r = rel_norm_b(t, pol)
             if r and r[0] in ("==", "!=") and r[1] == ("slice", K, None, C(1)) and r[2] in (B0, B1):
                 bit0 = (r[2] == B0) == (r[0] == "==")
         for ev in st.events:
@@ -1115,7 +1129,7 @@ def split(ctx, pid):
         rels = []
         truth = {}
         for t, pol, _ in st.log:
-            r = rel_norm(t, pol)
+            r = rel_norm_b(t, pol)
             if r is not None:
                 rels.append(r)
             else:
@@ -1229,7 +1243,7 @@ def _simp_ite(t, rels, truth):
     if t[0] == "ite" and len(t) == 4:
         cond = t[1]
         for pol in (True, False):
-            r = rel_norm(cond, pol)
+            r = rel_norm_b(cond, pol)
             if r is not None and (r in rels or (r[0] in ("==", "!=") and (r[0], r[2], r[1]) in rels)):
                 return _simp_ite(t[2] if pol else t[3], rels, truth)
             if r is None:
@@ -1271,7 +1285,7 @@ def brtab(ctx, pid):
             continue
         rels, truth = [], {}
         for t, pol, _ in st.log:
-            r = rel_norm(t, pol)
+            r = rel_norm_b(t, pol)
             if r is not None:
                 rels.append(r)
             else:
